@@ -5,6 +5,7 @@ against it in /repo (applied, then reverted) and stores everything under /verif/
 import json, os, shutil, subprocess, sys
 name, mut, wt, mod, pkg, run, demo, target = sys.argv[1:9]
 props = sys.argv[9:]
+flags = os.environ.get("MUT_TEST_FLAGS", "")  # e.g. -race for demonstrations that rely on the race detector
 env = dict(os.environ, GOFLAGS="-mod=mod", GOPROXY="off", GOSUMDB="off", GOTOOLCHAIN="local")
 def sh(cmd, cwd=None, timeout=1800):
     r = subprocess.run(cmd, shell=True, cwd=cwd, env=env, capture_output=True, text=True, timeout=timeout)
@@ -12,11 +13,11 @@ def sh(cmd, cwd=None, timeout=1800):
 out = {}
 sh("git checkout -q -- . && git clean -fdq", wt)
 shutil.copy(os.path.join(mut, demo), os.path.join(wt, target))
-rc, o = sh("go test -vet=off -count=1 -run '%s' %s" % (run, pkg), os.path.join(wt, mod))
+rc, o = sh("go test %s -vet=off -count=1 -run '%s' %s" % (flags, run, pkg), os.path.join(wt, mod))
 out["demo_without_patch"] = dict(rc=rc, tail=o[-600:])
 rc, o = sh("git apply %s" % os.path.join(mut, "patch.diff"), wt)
 assert rc == 0, o
-rc, o = sh("go test -vet=off -count=1 -run '%s' %s" % (run, pkg), os.path.join(wt, mod))
+rc, o = sh("go test %s -vet=off -count=1 -run '%s' %s" % (flags, run, pkg), os.path.join(wt, mod))
 out["demo_with_patch"] = dict(rc=rc, tail=o[-1200:])
 os.remove(os.path.join(wt, target))
 rc, o = sh("go build ./... && go test -vet=off -count=1 -timeout 20m %s" % pkg, os.path.join(wt, mod))
